@@ -204,6 +204,48 @@ def nan_prefill(prog, cd, rep, rule="nan-prefill"):
     rep.floor(rule, n, 7)
 
 
+def buffer_origin(prog, cd, rep, kinds, rule="nan-prefill"):
+    """Every buffer a gap-coded decoder copies runs into is allocated by that call (np.empty / np.full ...). A buffer obtained
+    from a cached helper is one object shared by all decodes of that length."""
+    for u, presence in kinds:
+        c = u.cls
+        mod, fq = c.module.path.name, f"{c.name}.{u.reader.name}"
+        allocs = {t.name for t in walk_terms(u.rterms) if isinstance(t, Alloc)}
+        stored = {t.name: t for t in walk_terms(u.rterms) if isinstance(t, Store)}
+        for name, st in stored.items():
+            if name in allocs:
+                continue
+            defs = [s for s in ast.walk(u.reader.node) if isinstance(s, ast.Assign) and any(isinstance(t, ast.Name) and t.id == name for t in s.targets)]
+            if not defs:
+                rep.fail(rule, mod, fq, st.node, f"runs are copied into `{name}`, which is not allocated in this call")
+                continue
+            v = defs[0].value
+            callee = None
+            if isinstance(v, ast.Call):
+                root = v.func
+                while isinstance(root, ast.Attribute):
+                    root = root.value
+                if isinstance(v.func, ast.Name):
+                    r = prog.resolve(c.module, v.func.id)
+                    if r and r[0] == "func":
+                        callee = r[1]
+                # helper(...).copy() is a fresh object
+                if isinstance(v.func, ast.Attribute) and v.func.attr == "copy":
+                    rep.ok(rule, f"{fq}: `{name}` is a private copy")
+                    continue
+            if callee is not None and any("cache" in d for d in callee.decorators):
+                rep.fail(rule, mod, fq, defs[0], f"decode buffer `{name}` comes from the cached helper {callee.name}() without a copy: every decode of that length shares one array (gap frames show earlier data, decoded tracks change later)")
+            elif callee is not None:
+                body = [s for s in callee.node.body if not (isinstance(s, ast.Expr) and isinstance(s.value, ast.Constant))]
+                retv = body[-1].value if body and isinstance(body[-1], ast.Return) else None
+                if len(body) == 1 and isinstance(retv, ast.Call) and norm(retv.func) == "np.full" and len(retv.args) > 1 and norm(retv.args[1]) in NAN:
+                    rep.ok(rule, f"{fq}: `{name}` = {callee.name}() returns a fresh np.full(nan) buffer")
+                else:
+                    raise AnalysisError(f"{fq}: decode buffer `{name}` comes from helper {callee.name}() whose body is not modelled")
+            else:
+                raise AnalysisError(f"{fq}: origin of decode buffer `{name}` (`{norm(v)}`) is not modelled")
+
+
 def reader_stores(prog, cd, rep, kinds, rule="segment-stores"):
     for u, presence in kinds:
         un = cd.unify(u)
@@ -234,6 +276,7 @@ def run(prog, rep):
     kinds = rep.attempt(segments_derivation, prog, cd, rep) or []
     rep.attempt(single_source, prog, cd, rep, kinds)
     rep.attempt(nan_prefill, prog, cd, rep)
+    rep.attempt(buffer_origin, prog, cd, rep, kinds)
     rep.attempt(reader_stores, prog, cd, rep, kinds)
     rep.trusted += ["numpy contract: masked_invalid + clump_unmasked return the maximal runs of non-NaN entries as increasing, disjoint, non-adjacent slices"]
     rep.not_decided += ["the numpy contract itself over all 2^n masks", "tracks whose components disagree on where the NaNs are"]
